@@ -50,6 +50,27 @@ def tableFn (xs ys : List Float) (u : List (List Float)) (s g : Float) : Float :
   | some i, some j => ((u.getD i []).getD j (0.0 / 0.0))
   | _, _ => 0.0 / 0.0
 
+/-- the random forest of a case: its values at the points the model evaluates, looked up by value -/
+def pointFn (tbl : List (Float × Float × Float)) (s g : Float) : Float :=
+  match tbl.find? (fun t => t.1 == s && t.2.1 == g) with
+  | some t => t.2.2
+  | none => 0.0 / 0.0
+
+def pointsP : P (List (Float × Float × Float)) :=
+  listOf (do let s ← float; let g ← float; let v ← float; pure (s, g, v))
+
+partial def modelTypeP : P (ModelType Float) := do
+  let t ← next
+  match t with
+  | "S" => pure .smartcore
+  | "O" => pure .onnx
+  | "I" => do
+    let u ← modelTypeP
+    let s0 ← float; let s1 ← float; let sb ← nat
+    let g0 ← float; let g1 ← float; let gb ← nat
+    pure (.interpolate u s0 s1 sb g0 g1 gb)
+  | _ => failure
+
 def resList {β : Type} : Res (List β) → List β
   | .ok v => v
   | _ => []
@@ -112,6 +133,40 @@ def case : P String := do
     | .err _ => pure "new err"
     | .panic _ => pure "new panic"
     | .diverges => pure "new diverges"
+  | "sc" => do
+    -- SmartcoreSpeedGradeModel::{new, predict}
+    let su ← unitP SpeedUnit.ofName?; let gu ← unitP GradeUnit.ofName?; let ru ← unitP EnergyRateUnit.ofName?
+    let fileOk ← bool
+    let tbl ← pointsP
+    let qs ← listOf (do
+      let s ← float; let qsu ← unitP SpeedUnit.ofName?; let g ← float; let qgu ← unitP GradeUnit.ofName?
+      pure (s, qsu, g, qgu))
+    if !fileOk then pure "new err"
+    else
+      pure (joinSp (qs.map fun (s, qsu, g, qgu) =>
+        resOut (fun (p : Float × EnergyRateUnit) => fo p.1 ++ " " ++ p.2.name)
+          (smartcorePredict (pointFn tbl) su gu ru s qsu g qgu)))
+  | "lpm" => do
+    -- load_prediction_model, then the record's fields, the model's predict and the record's predict
+    let mt ← modelTypeP
+    let su ← unitP SpeedUnit.ofName?; let gu ← unitP GradeUnit.ofName?; let ru ← unitP EnergyRateUnit.ofName?
+    let fileOk ← bool
+    let ideal ← optOf float; let adj ← optOf float
+    let tbl ← pointsP
+    let qs ← listOf (do
+      let s ← float; let qsu ← unitP SpeedUnit.ofName?; let g ← float; let qgu ← unitP GradeUnit.ofName?
+      let d ← float; let du ← unitP DistanceUnit.ofName?
+      pure (s, qsu, g, qgu, d, du))
+    match loadPredictionModel (pointFn tbl) fileOk mt su gu ru ideal adj with
+    | .ok r =>
+      let head := "ok " ++ fo r.idealEnergyRate ++ " " ++ fo r.realWorldEnergyAdjustment ++ " "
+        ++ r.speedUnit.name ++ " " ++ r.gradeUnit.name ++ " " ++ r.energyRateUnit.name
+      pure (joinSp (head :: qs.map fun (s, qsu, g, qgu, d, du) =>
+        resOut (fun (p : Float × EnergyRateUnit) => fo p.1 ++ " " ++ p.2.name) (r.model s qsu g qgu) ++ " "
+          ++ resOut (fun (p : Float × EnergyUnit) => fo p.1 ++ " " ++ p.2.name) (r.predict s qsu g qgu d du)))
+    | .err _ => pure "err"
+    | .panic _ => pure "panic"
+    | .diverges => pure "diverges"
   | _ => failure
 
 def run (line : String) : String := Proto.run case line
